@@ -35,11 +35,38 @@ class Pat:
                         t0['f'].get('name') in ('Ok', 'Some') and len(t0['args']) == 1:
                     # `helper(..)?` where the helper ends in `Ok(value)`: the value
                     alts.append((t0['args'][0], ih[1]))
-        elif e2.get('k') == 'field':
+        if e2.get('k') == 'mcall' and e2.get('name') == 'map' and len(e2.get('args', [])) == 1 and \
+                (e2.get('ty') or '').startswith(('std::result::Result<', 'std::option::Option<')):
+            # `r.map(|n| f(n))?` is `f(r?)`: the mapped value with the closure applied to the unwrapped one
+            cl = strip(e2['args'][0])
+            if isinstance(cl, dict) and cl.get('k') == 'closure' and len(cl.get('params', [])) == 1 and \
+                    cl['params'][0].get('k') == 'bind':
+                tr = {'k': 'match', 'src': 'TryDesugar(synthetic)', 'arms': [], 'ln': e2.get('ln'),
+                      'scrut': {'k': 'call', 'f': {'k': 'path', 'def': 'std::ops::Try::branch', 'name': 'branch'},
+                                'args': [e2['recv']]}}
+                alts.append((H.subst(cl['body'], {cl['params'][0]['name']: tr}), ctx))
+        if e2.get('k') == 'field':
             # `v.f` where v is (bound to / returned as) a struct literal: the initialiser of f
             pf = project_field(ctx, e2)
             if pf is not None:
                 alts.append(pf)
+        if e2.get('k') in ('call', 'mcall') and not alts:
+            # a method of a crate-local trait (generic receiver): the pattern must hold in every implementation
+            d_ = e2.get('def') if e2.get('k') == 'mcall' else (e2['f'].get('def') if e2['f'].get('k') == 'path' else None)
+            impls = trait_impls(ctx.facts, d_)
+            if impls:
+                every = True
+                for h_ in impls:
+                    ih = inline_call(ctx, e2, impl=h_)
+                    if ih is None:
+                        every = False
+                        break
+                    ih[1].via_depth = depth + 1
+                    if not self.m(ih[1], ih[0]):
+                        every = False
+                        break
+                if every:
+                    return True
         for a_e, a_ctx in alts:
             a_ctx.via_depth = depth + 1
             try:
@@ -111,7 +138,22 @@ def project_field(ctx, e, depth=0):
     return None
 
 
-def inline_call(ctx, e):
+def trait_impls(facts, d):
+    """the implementations (typed HIR) of the crate-local trait method `Trait::method`"""
+    if not d or '::' not in d or dict.__contains__(facts.hir, d):
+        return []
+    idx = getattr(facts, '_trait_impl_index', None)
+    if idx is None:
+        idx = {}
+        for p_, h in facts.hir.items():
+            if p_.startswith('<') and ' as ' in p_ and '>::' in p_:
+                tr_ = p_[p_.index(' as ') + 4:p_.rindex('>::')]
+                idx.setdefault(tr_ + '::' + p_[p_.rindex('>::') + 3:], []).append(h)
+        facts._trait_impl_index = idx
+    return idx.get(d, [])
+
+
+def inline_call(ctx, e, impl=None):
     """a call of a crate-local function whose body ends in a tail expression: (that expression with
     the parameters replaced by the arguments, context in which the helper's own lets are visible)"""
     if e.get('k') == 'call' and e['f'].get('k') == 'path':
@@ -122,6 +164,8 @@ def inline_call(ctx, e):
         cargs = [e['recv']] + list(e['args'])
     else:
         return None
+    if impl is not None:
+        d = impl['path']
     h2 = ctx.facts.hir.get(d) if d else None
     if h2 is None or d not in ctx.facts.hir:
         return None
@@ -461,10 +505,103 @@ class CLAMP(Pat):
     def m0(self, ctx, e):
         return (M('clamp', self.x, self.lo, self.hi).m(ctx, e) or
                 M('min', M('max', self.x, self.lo), self.hi).m(ctx, e) or
-                M('max', M('min', self.x, self.hi), self.lo).m(ctx, e))
+                M('max', M('min', self.x, self.hi), self.lo).m(ctx, e) or
+                self._as_decisions(ctx, e))
+
+    def _as_decisions(self, ctx, e):
+        """the comparison form: `if x < lo { lo } else if x > hi { hi } else { x }` (either test first), written in
+        place or as the `Ok(..)`-valued tail of a fallible helper used with `?` (then x is what the helper parsed)"""
+        import symeval as SE
+        e0 = strip(e, keep_try=True)
+        unwrap_ok = False
+        c = ctx
+        if H.is_try(e0):
+            inner = strip(H.try_inner(e0))
+            if not (isinstance(inner, dict) and inner.get('k') in ('call', 'mcall')):
+                return False
+            ih = inline_call(ctx, inner)
+            if ih is None:
+                return False
+            e0, c = strip(ih[0]), ih[1]
+            unwrap_ok = True
+        if not (isinstance(e0, dict) and e0.get('k') in ('if', 'match')):
+            return False
+        try:
+            tree = SE.SymEval(None, budget=2000).value(e0, {})
+        except SE.Stop:
+            return False
+
+        def region(cond):
+            if cond[0] != 'e':
+                return None
+            ce = strip(cond[1])
+            for op, a, b, reg in (('Lt', self.x, self.lo, 'below'), ('Gt', self.lo, self.x, 'below'),
+                                  ('Le', self.x, self.lo, 'below'), ('Ge', self.lo, self.x, 'below'),
+                                  ('Gt', self.x, self.hi, 'above'), ('Lt', self.hi, self.x, 'above'),
+                                  ('Ge', self.x, self.hi, 'above'), ('Le', self.hi, self.x, 'above')):
+                if BIN(op, a, b).m(c, ce):
+                    return reg
+            return None
+        for val, want in (({'below': True, 'above': False}, self.lo), ({'below': False, 'above': True}, self.hi),
+                          ({'below': False, 'above': False}, self.x)):
+            leaf = SE.evaluate(tree, lambda cond: val.get(region(cond)))
+            if leaf is None:
+                return False
+            leaf = strip(leaf)
+            if unwrap_ok:
+                if not (isinstance(leaf, dict) and leaf.get('k') == 'call' and leaf['f'].get('k') == 'path' and
+                        leaf['f'].get('name') == 'Ok' and len(leaf['args']) == 1):
+                    return False
+                leaf = leaf['args'][0]
+            if not want.m(c, leaf):
+                return False
+        return True
 
     def __repr__(self):
         return 'CLAMP(%r,%r,%r)' % (self.x, self.lo, self.hi)
+
+
+class OPT_OR(Pat):
+    """the value of an Option with a default: `opt.map_or(default, f)`, `opt.map(f).unwrap_or(default)`,
+    `match opt { Some(p) => f(p), None => default }`, `if let Some(p) = opt { f(p) } else { default }` -- as the decision
+    they all are: (is `opt` Some?) -> some-value : default"""
+    via_let = True
+
+    def __init__(self, opt, default, some=None):
+        self.opt, self.default, self.some = opt, default, some or ANY()
+
+    def m0(self, ctx, e):
+        import symeval as SE
+        e0 = strip(e)
+        if not (isinstance(e0, dict) and e0.get('k') in ('mcall', 'match', 'if')):
+            return False
+        if e0.get('k') == 'mcall' and e0.get('name') == 'unwrap_or' and len(e0.get('args', [])) == 1:
+            r = strip(e0['recv'])
+            if isinstance(r, dict) and r.get('k') == 'mcall' and r.get('name') == 'map' and len(r.get('args', [])) == 1:
+                return self.opt.m(ctx, r['recv']) and self.default.m(ctx, e0['args'][0]) and \
+                    (isinstance(self.some, ANY) or self.some.m(ctx, r['args'][0]))
+        try:
+            tree = SE.SymEval(None, budget=2000).value(e0, {})
+        except SE.Stop:
+            return False
+        if tree[0] != 'ite' or tree[1][0] != 'pat':
+            return False
+        pat, scrut = tree[1][1], tree[1][2]
+        rp = repr(pat)
+        if not self.opt.m(ctx, scrut):
+            return False
+        if "'Some'" in rp:
+            some_t, none_t = tree[2], tree[3]
+        elif "'None'" in rp:
+            some_t, none_t = tree[3], tree[2]
+        else:
+            return False
+        if none_t[0] != 'v' or not self.default.m(ctx, none_t[1]):
+            return False
+        return isinstance(self.some, ANY) or (some_t[0] == 'v' and self.some.m(ctx, some_t[1]))
+
+    def __repr__(self):
+        return 'OPT_OR(%r,%r)' % (self.opt, self.default)
 
 
 class CALLARG(Pat):
@@ -701,3 +838,90 @@ def resolve_value(ctx, e, depth=0):
         if pf is not None:
             return resolve_value(pf[1], pf[0], depth + 1)
     return e
+
+
+def slice_cursor_break_flag(ctx, hfn, flag):
+    """The slice-cursor spelling of "a break ended before this object":
+        let mut rest = <all breaks>;                       // the cursor: the breaks not yet passed
+        for h in objects { let n = rest.iter().take_while(|b| b.end_time < h.start_time).count();
+                           rest = &rest[n..];  ..  flag = n > 0 }
+    `flag` is the expression or-ed into new_combo.  Checked: n counts the leading breaks that ended before the object's
+    start (nothing else in the predicate), the cursor starts at all breaks, and its only reassignment drops exactly
+    those n.  Returns (True, '') / (False, why) / None when `flag` is not of this form."""
+    f = strip(flag)
+    if not (isinstance(f, dict) and f.get('k') == 'binary'):
+        return None
+    n_expr = None
+    for op, k_, swap in (('Gt', 0, False), ('Ne', 0, False), ('Ge', 1, False), ('Lt', 0, True), ('Ne', 0, True), ('Le', 1, True)):
+        x, y = (f['b'], f['a']) if swap else (f['a'], f['b'])
+        if f.get('op') == op and K(k_).m(ctx, y):
+            n_expr = strip(x)
+            break
+    if not (isinstance(n_expr, dict) and n_expr.get('k') == 'local'):
+        return None
+    n_name = n_expr['name']
+    inits = unique_inits(ctx, n_name)
+    if len(inits) != 1:
+        return None
+    cnt = strip(inits[0])
+    if not (isinstance(cnt, dict) and cnt.get('k') == 'mcall' and cnt.get('name') == 'count'):
+        return None
+    tw = strip(cnt['recv'])
+    if not (isinstance(tw, dict) and tw.get('k') == 'mcall' and tw.get('name') == 'take_while' and len(tw.get('args', [])) == 1):
+        return None
+    src = strip(tw['recv'])
+    while isinstance(src, dict) and src.get('k') == 'mcall' and src.get('name') in ('iter', 'into_iter', 'copied', 'cloned'):
+        src = strip(src['recv'])
+    if not (isinstance(src, dict) and src.get('k') == 'local'):
+        return False, 'the passed breaks are not counted on a cursor over the breaks'
+    cur = src['name']
+    cl = strip(tw['args'][0])
+    if not (isinstance(cl, dict) and cl.get('k') == 'closure' and len(cl.get('params', [])) == 1):
+        return False, 'the test for a passed break cannot be read'
+    bname = (pat_names(cl['params'][0]) or [None])[0]
+    body = strip(cl['body'])
+    START = OR(F(ANY(), 'start_time'), L('start_time'))
+    ctx.env = {}
+    okp = isinstance(body, dict) and body.get('k') == 'binary' and (
+        (body.get('op') == 'Lt' and F(L(bname), 'end_time').m(ctx, body['a']) and START.m(ctx, body['b'])) or
+        (body.get('op') == 'Gt' and F(L(bname), 'end_time').m(ctx, body['b']) and START.m(ctx, body['a'])))
+    if not okp:
+        return False, 'a passed break is not exactly one with `end_time < start_time` of the object'
+    # the cursor: starts at all breaks; reassigned only to `&cursor[n..]`
+    cinits = ctx.inits.get(cur, [])
+    if len(cinits) != 1:
+        return False, 'the break cursor `%s` has %d initialisers' % (cur, len(cinits))
+    ci = strip(cinits[0])
+    while isinstance(ci, dict) and ci.get('k') == 'mcall' and ci.get('name') in ('as_slice', 'as_ref', 'deref', 'iter'):
+        ci = strip(ci['recv'])
+    if isinstance(ci, dict) and ci.get('k') == 'index':
+        rng = strip(ci.get('i'))
+        if not (isinstance(rng, dict) and rng.get('k') == 'struct' and rng.get('adt') == 'std::ops::RangeFull'):
+            return False, 'the break cursor does not start at the first break'
+        ci = strip(ci['e'])
+    if not (isinstance(ci, dict) and ci.get('k') == 'field' and ci.get('n') == 'breaks'):
+        return False, 'the break cursor does not start as the whole list of breaks'
+    assigns = []
+
+    def v(n, anc):
+        if n.get('k') in ('assign', 'assignop') and strip(n['l']).get('k') == 'local' and strip(n['l'])['name'] == cur:
+            assigns.append(n)
+    H.walk(hfn['body'], v)
+    if len(assigns) != 1 or assigns[0]['k'] != 'assign':
+        return False, 'the break cursor is advanced %d times per object' % len(assigns)
+    r = strip(assigns[0]['r'])
+    okr = False
+    if isinstance(r, dict) and r.get('k') == 'index' and strip(r['e']).get('k') == 'local' and strip(r['e'])['name'] == cur:
+        rng = strip(r.get('i'))
+        if isinstance(rng, dict) and rng.get('k') == 'struct' and rng.get('adt') == 'std::ops::RangeFrom':
+            st = strip(rng['fields'][0]['e'])
+            okr = isinstance(st, dict) and st.get('k') == 'local' and st.get('name') == n_name
+    elif isinstance(r, dict) and r.get('k') == 'mcall' and r.get('name') == 'split_at' and False:
+        pass
+    if not okr:
+        return False, 'the break cursor does not advance by exactly the breaks that were passed (`&rest[n..]`)'
+    return True, ''
+
+
+def pat_names(p):
+    return H.pat_bindings(p)
